@@ -69,6 +69,10 @@ func genOp(t *rapid.T) Op {
 		n = rapid.SampledFrom([]int{1, 5, 32, 33, 300, 301, 800}).Draw(t, "len")
 	case "sha256":
 		n = 32
+		if op.Kind == "appendlist" && rapid.IntRange(0, 3).Draw(t, "badfirst") == 0 {
+			// a list-level append of something that is not a SHA-256 hash: must be refused, also on an empty list
+			n = rapid.SampledFrom([]int{0, 20, 31, 33, 48, 64}).Draw(t, "badlen")
+		}
 	default:
 		n = 1
 	}
@@ -82,7 +86,7 @@ func genOp(t *rapid.T) Op {
 }
 
 func genCase(t *rapid.T) Case {
-	c := Case{Stream: esl.Encode(gen.ESLStream(6).Draw(t, "stream"))}
+	c := Case{Stream: esl.Encode(gen.ESLStreamHuge(6).Draw(t, "stream"))}
 	if rapid.Bool().Draw(t, "withops") {
 		c.Ops = rapid.SliceOfN(rapid.Custom(genOp), 1, 12).Draw(t, "ops")
 	}
@@ -293,11 +297,30 @@ func checkCase(c Case) error {
 				first = pem.EncodeToMemory(&pem.Block{Type: "CERTIFICATE", Bytes: op.Data})
 				hx.Class("op_appendlist_pem")
 			}
-			if err := l.AppendBytes(owner, first); err != nil {
-				return fmt.Errorf("op %d: list-level AppendBytes on an empty list fails: %v", i, err)
+			// both list-level routes: the bytes, or the entry as a value
+			var lerr error
+			if len(op.More)%2 == 0 {
+				lerr = l.AppendBytes(owner, first)
+			} else {
+				hx.Class("op_appendlist_through_AppendSignature")
+				lerr = l.AppendSignature(signature.SignatureData{Owner: owner, Data: first})
 			}
-			for _, m := range op.More {
-				_ = l.AppendBytes(owner, m)
+			if op.Type == "sha256" && len(op.Data) != 32 {
+				hx.Class("op_appendlist_not_a_hash")
+				if lerr == nil {
+					return fmt.Errorf("op %d: list-level append of %d bytes to an empty SHA-256 list reports success", i, len(op.Data))
+				}
+				break
+			}
+			if lerr != nil {
+				return fmt.Errorf("op %d: list-level append on an empty list fails: %v", i, lerr)
+			}
+			for k, m := range op.More {
+				if k%2 == 0 {
+					_ = l.AppendBytes(owner, m)
+				} else {
+					_ = l.AppendSignature(signature.SignatureData{Owner: owner, Data: m})
+				}
 			}
 			db.AppendList(l)
 		default:
